@@ -701,6 +701,7 @@ impl<'a, 'tcx> Cx<'a, 'tcx> {
           "closure"
         }
       }
+      DefKind::Const { .. } => "const",
       _ => "other",
     };
     o.push(("kind", J::s(k)));
@@ -807,6 +808,22 @@ impl Callbacks for Cb {
         let body = tcx.optimized_mir(def_id);
         let mut o = cx.fn_header(def_id);
         let b = cx.body(def_id, body, "optimized");
+        o.extend(b);
+        fns.push(J::Obj(o));
+      }
+      // initialisers of (non-generic) constants: rules compare configuration values such as `const NO_DELAY: Option<Duration> = None`
+      let owners2: Vec<LocalDefId> = tcx.hir_body_owners().collect();
+      for ldid in owners2 {
+        let def_id = ldid.to_def_id();
+        if !matches!(tcx.def_kind(def_id), DefKind::Const { .. }) {
+          continue;
+        }
+        if tcx.generics_of(def_id).count() != 0 {
+          continue;
+        }
+        let body = tcx.mir_for_ctfe(def_id);
+        let mut o = cx.fn_header(def_id);
+        let b = cx.body(def_id, body, "ctfe");
         o.extend(b);
         fns.push(J::Obj(o));
       }
